@@ -138,7 +138,8 @@ func drawExtEvent(t *rapid.T) model.Ev {
 func init() {
 	register(&Property{
 		ID:   "C09",
-		Rule: "producers: the three parsers on valid own/foreign documents and on mutated ones (events before an error must still be a well-formed prefix) under generated chunkings; Fold over generated Go types (tags omit/omitempty/inline, pointers, interfaces, maps, slices, arrays, pool types with well-formed custom folders); EnsureExtVisitor/MakeStringRefVisitor over a plain visitor for generated extended events; oracle = contract monitor (balance, key discipline, announced length == delivered count, element conformity to announced BaseType); non-trivial = the stream announces a length >= 0 or an element type, or the folded type carries tag options; distinct by case hash",
+		Enum: enumFoldPoolShapes(func(g *GoCase) any { return &C09Case{Kind: "fold", Go: g} }),
+		Rule: "producers: the three parsers on valid own/foreign documents and on mutated ones (events before an error must still be a well-formed prefix) under generated chunkings; Fold over generated Go types (tags omit/omitempty/inline, pointers, interfaces, maps, slices, arrays, pool types with well-formed custom folders); EnsureExtVisitor/MakeStringRefVisitor over a plain visitor for generated extended events; deterministic part: every pool type with a custom folder (implemented by value or pointer receiver, registered; object-, array- and scalar-shaped; of struct, map, slice and primitive kind) as T, *T, []T, [2]T, map[string]T, []*T, struct field, inlined field and interface value, with fixed non-empty values; oracle = contract monitor (balance, key discipline, announced length == delivered count, element conformity to announced BaseType); non-trivial = the stream announces a length >= 0 or an element type, or the folded type carries tag options; distinct by case hash",
 		New:  func() any { return &C09Case{} },
 		Draw: func(t *rapid.T) any {
 			switch w := rapid.IntRange(0, 9).Draw(t, "producer"); {
